@@ -235,7 +235,7 @@ def run(rep, tier, root=None):
         wrong, unknown_test = [], False
         seen_vals = {d_: [] for d_ in DT}
         for conds, cnf, v in full:
-            if any(c.startswith("except") for c in conds):
+            if any(c.startswith("except") or c.startswith("callee: raised(") for c in conds):
                 continue
             dt = [(val, t) for val, t in cnf if isinstance(val, Rat) and any(isinstance(a, Fn) and a.name in ("dtype", "iscomplexobj", "issubdtype", "isrealobj")
                                                                               for a in val.atoms())]
